@@ -58,7 +58,7 @@ type callReturn struct {
 	at   time.Time
 }
 
-func c12Case(t *rapid.T, sub string, w *stack.World, desc string, timing string, nRecv, nServe int, traffic bool) {
+func c12Case(t *rapid.T, sub string, w *stack.World, desc string, timing string, nRecv, nServe int, traffic bool, cbDelay time.Duration) {
 	fail := func(f string, a ...any) { t.Fatalf("%s\ncase: %s", fmt.Sprintf(f, a...), desc) }
 	victim, sender := w.Nodes[0], w.Nodes[1]
 	baseline := libGoroutines()
@@ -77,6 +77,9 @@ func c12Case(t *rapid.T, sub string, w *stack.World, desc string, timing string,
 				err := victim.S.Receive(bg, func(m stack.Msg) {
 					lastCallbackStart.Store(time.Now().UnixNano())
 					callbacks.Add(1)
+					if cbDelay > 0 {
+						time.Sleep(cbDelay) // a callback that is still running when Close is called
+					}
 				})
 				if err != nil {
 					mu.Lock()
@@ -272,7 +275,7 @@ func c12Case(t *rapid.T, sub string, w *stack.World, desc string, timing string,
 	}
 	ev.Eval(sub)
 	if nRecv+nServe > 0 {
-		key := fmt.Sprintf("%s recv=%d serve=%d timing=%s traffic=%v", desc, nRecv, nServe, timing, traffic)
+		key := fmt.Sprintf("%s recv=%d serve=%d timing=%s traffic=%v cbDelay=%v", desc, nRecv, nServe, timing, traffic, cbDelay)
 		if ev.NonTrivial(sub, key) {
 			ev.Sample(sub, key)
 		}
@@ -280,19 +283,19 @@ func c12Case(t *rapid.T, sub string, w *stack.World, desc string, timing string,
 	}
 }
 
-const c12Rule = "k in 0..4 goroutines blocked in Receive and in ServeAsk with non-expiring contexts, optional continuous tells/asks in flight from a peer, Close at a generated point (immediately, after the 3rd delivery, a moment later, concurrently from two goroutines, twice). Oracle: Close returns within 3 s and does not panic; every blocked call returns a non-nil error within 3 s; no callback starts later than 20 ms after Close returned (traffic continues for 60 ms as the sentinel; the allowance covers hand-offs committed before Close); 3 further Receive/ServeAsk calls each return a non-nil error within 1 s; after closing all nodes no goroutine that carries a library frame and was started during the case is alive after a 3 s grace period (stack-dump diff). non-trivial = >= 1 call blocked at the moment of Close; distinct by (spec, blocked-call vector, timing)"
+const c12Rule = "k in 0..4 goroutines blocked in Receive and in ServeAsk with non-expiring contexts, optional continuous tells/asks in flight from a peer, receive callbacks that take 0-5 ms (so that Close lands while a callback runs), optionally a transport beneath whose Close reports an error, Close at a generated point (immediately, after the 3rd delivery, a moment later, concurrently from two goroutines, twice). Oracle: Close returns within 3 s and does not panic; every blocked call returns a non-nil error within 3 s; no callback starts later than 20 ms after Close returned (traffic continues for 60 ms as the sentinel; the allowance covers hand-offs committed before Close); 3 further Receive/ServeAsk calls each return a non-nil error within 1 s; after closing all nodes no goroutine that carries a library frame and was started during the case is alive after a 3 s grace period (stack-dump diff). non-trivial = >= 1 call blocked at the moment of Close; distinct by (spec, blocked-call vector, timing)"
 
 func TestC12Close(t *testing.T) {
 	const sub = "C12.close_generated_stacks"
 	ev.Rule(sub, "rapid: every stack spec (memory and UDP bases; fragmenting, message-box, multiplexer, multi-transport, address-mapped, whitelisted, P2PKE and QUIC layers to depth 3); "+c12Rule)
 	rapid.Check(t, func(t *rapid.T) {
-		spec := genSpec(t, specOpts{maxDepth: 3, bases: []string{"mem", "mem", "mem", "udp"}, honestFrag: true})
+		spec := genSpec(t, specOpts{maxDepth: 3, bases: []string{"mem", "mem", "mem", "udp"}, honestFrag: true, errClose: true})
 		w, err := stack.Build(spec, 2, 0)
 		if err != nil {
 			t.Fatalf("harness: %v: %v", spec, err)
 		}
 		timing := rapid.SampledFrom([]string{"immediately", "after-deliveries", "later", "concurrent", "twice"}).Draw(t, "timing")
-		c12Case(t, sub, w, spec.String(), timing, rapid.IntRange(0, 4).Draw(t, "receivers"), rapid.IntRange(0, 4).Draw(t, "servers"), rapid.Bool().Draw(t, "traffic"))
+		c12Case(t, sub, w, spec.String(), timing, rapid.IntRange(0, 4).Draw(t, "receivers"), rapid.IntRange(0, 4).Draw(t, "servers"), rapid.Bool().Draw(t, "traffic"), time.Duration(rapid.SampledFrom([]int{0, 0, 1, 5}).Draw(t, "callbackMs"))*time.Millisecond)
 	})
 }
 
@@ -305,6 +308,6 @@ func TestC12CloseSSH(t *testing.T) {
 			t.Fatalf("harness: %v", err)
 		}
 		timing := rapid.SampledFrom([]string{"immediately", "after-deliveries", "later", "concurrent", "twice"}).Draw(t, "timing")
-		c12Case(t, sub, w, "ssh", timing, rapid.IntRange(0, 4).Draw(t, "receivers"), rapid.IntRange(0, 4).Draw(t, "servers"), rapid.Bool().Draw(t, "traffic"))
+		c12Case(t, sub, w, "ssh", timing, rapid.IntRange(0, 4).Draw(t, "receivers"), rapid.IntRange(0, 4).Draw(t, "servers"), rapid.Bool().Draw(t, "traffic"), time.Duration(rapid.SampledFrom([]int{0, 1}).Draw(t, "callbackMs"))*time.Millisecond)
 	})
 }
